@@ -1340,6 +1340,28 @@ def main(repo: str, outdir: str, dry: bool = False) -> int:
         return (HEADER + "set_option linter.unusedVariables false\n\nnamespace Optyx.Generated\n\n" + body
                 + "\nend Optyx.Generated\n")
 
+    def f_evalstep():
+        import py2lean
+        import py2lean_eval
+        try:
+            body = py2lean_eval.gen_eval_step(src("core/expressions.py"), src("core/parameters.py"), src("core/vectors.py"),
+                                              src("core/matrices.py"))
+        except py2lean.TranslateError as e:
+            raise TranslateError(str(e))
+        return (HEADER + "import Optyx.Py.EvalSupport\n\nset_option linter.unusedVariables false\n\n"
+                "namespace Optyx.Generated\nopen Optyx Optyx.Py NumAlg\n\n" + body + "\nend Optyx.Generated\n")
+
+    def f_varsstep():
+        import py2lean
+        import py2lean_vars
+        try:
+            body = py2lean_vars.gen_vars_step(src("core/expressions.py"), src("core/parameters.py"), src("core/vectors.py"),
+                                              src("core/matrices.py"))
+        except py2lean.TranslateError as e:
+            raise TranslateError(str(e))
+        return (HEADER + "import Optyx.Py.VarsSupport\n\nset_option linter.unusedVariables false\n\n"
+                "namespace Optyx.Generated\nopen Optyx Optyx.Py.Api\n\n" + body + "\nend Optyx.Generated\n")
+
     def f_lpfast():
         import py2lean_lpfast
         try:
@@ -1400,7 +1422,8 @@ def main(repo: str, outdir: str, dry: bool = False) -> int:
                         ("ApiGlue", f_apiglue), ("LPGlue", f_lpglue), ("SortGlue", f_sort),
                         ("DegreeStep", f_degstep), ("GradStep", f_gradstep), ("LPStep", f_lpstep), ("JacRowVec", f_jacrowvec),
                         ("ScipyPost", f_scipypost), ("ProblemEdit", f_problemedit),
-                        ("ConstraintFns", f_constraintfns), ("SvsStep", f_svs), ("BuildStep", f_buildstep), ("Operators", f_operators), ("GradIterCtl", f_graditer), ("LPFast", f_lpfast), ("HookShape", f_hookshape), ("ClosurePaths", f_closurepaths)):
+                        ("ConstraintFns", f_constraintfns), ("SvsStep", f_svs), ("BuildStep", f_buildstep), ("Operators", f_operators), ("GradIterCtl", f_graditer), ("LPFast", f_lpfast), ("HookShape", f_hookshape), ("ClosurePaths", f_closurepaths), ("EvalStep", f_evalstep),
+                        ("VarsStep", f_varsstep)):
         path = os.path.join(outdir, fname + ".lean")
         try:
             text = make()
